@@ -1,4 +1,5 @@
 """C16 Account structure (structural clauses only)."""
+import re
 from engine import analysis as A, fde
 from engine.model import op_place
 from .common import *
@@ -256,7 +257,15 @@ def run(ctx):
                 if at.kind == "call" and at.callee.endswith("::is_active") and at.truth is False:
                     tgt = [b for a2, b in t["arms"] if int(a2) == arm][0] if arm != "else" else t["else"]
                     okscan = bool(nx) and any(n_.block in vat.reach_from(tgt) or n_.block == tgt for n_ in nx)
-        ctx.inst("C16.R5", "scan-all-slots", okscan, "an inactive slot does not end the tag scan (the loop continues with the next slot)", "", vat.loc(vat.raw["span"]))
+        # the same scan over `balances.iter().filter(|b| b.is_active())`: inactive slots are skipped by the adaptor; the loop must not be left early
+        filt_form = False
+        for n_ in nx:
+            tr_ = expr_tree(prog, vat, n_.args[0], inline=1)
+            if re.fullmatch(r"(?:into_iter\()?filter\(iter\(p2\.lending_account\.balances\),closure\{is_active\(a2\)\}\)\)?", tr_):
+                filt_form = True
+                if not okscan:
+                    okscan = not loop_early_exits(prog, vat, n_.block)
+        ctx.inst("C16.R5", "scan-all-slots", okscan, "an inactive slot does not end the tag scan (the loop continues with the next slot)", "filter(is_active) form" if filt_form else "", vat.loc(vat.raw["span"]))
         # iterates lending_account.balances of the account argument
         itc = [c for c in vat.calls() if c.callee and c.callee["name"] == "iter"]
         okit = any(ctx.slicer.operand(vat, c.args[0], at=c.block).has_field(LENDACC, "balances") and 2 in ctx.slicer.operand(vat, c.args[0], at=c.block).params for c in itc)
@@ -288,12 +297,14 @@ def run(ctx):
             state = {"i": 0}
 
             def st_next(i, a):
-                if state["i"] < len(cells):
+                while state["i"] < len(cells):
                     c = cells[state["i"]]
                     state["i"] += 1
+                    if filt_form and c.v[3][a_i].v == fde.Int(0):
+                        continue          # `.filter(|b| b.is_active())` (closure content checked above): the adaptor skips inactive slots
                     return fde.Adt("core::option::Option", 1, {0: fde.Cell(fde.Ref(c))})
                 return fde.Adt("core::option::Option", 0, {})
-            it = fde.Interp(prog, stubs={"iter": lambda i, a: fde.Adt("iter", 0, {}), "into_iter": lambda i, a: a[0], "next": st_next,
+            it = fde.Interp(prog, stubs={"iter": lambda i, a: fde.Adt("iter", 0, {}), "into_iter": lambda i, a: a[0], "next": st_next, "filter": lambda i, a: a[0],
                                          "is_active": lambda i, a: (a[0][1].v[3][a_i].v if a[0][0] == "ref" and a[0][1].v[0] == "adt" and a_i in a[0][1].v[3] else fde.TOP)}, max_steps=20000)
             acc = fde.Adt(MACCOUNT, 0, {la_i: fde.Cell(fde.Adt(LENDACC, 0, {}))})
             outs = it.run(vat, [bank_with(btag), fde.Ref(fde.Cell(acc))])
